@@ -225,6 +225,17 @@ def cases(tier, seed):
                                    order=orders[(j + 1) % len(orders)])
 
 
+    # an argument with no values at all: nothing runs, the nesting is empty
+    for zi, shp in enumerate([(0,), (2, 0), (0, 2), (1, 0, 2)]):
+        for ki, (kind, split) in enumerate([("num", False), ("tuple2", True),
+                                            ("str", False)]):
+            base = {"shape": list(shp), "types": "ifs"[:len(shp)],
+                    "kind": kind, "split": False, "flat": (zi + ki) % 2 == 1,
+                    "spelling": ["dict", "tuple"][ki % 2], "nconst": ki % 3}
+            yield dict(base, strat="seq")
+            yield dict(base, strat="shuffle", seed=True)
+            yield dict(base, strat=["submit", "async", "fakepool"][ki],
+                       order=[])
     # grids beyond any plausible internal window / chunk size (64, 100, 128,
     # 256, 1000): every strategy, a few completion orders
     big = [(3, 3, 3, 3), (4, 4, 4, 4), (4, 4, 2, 4, 2)]
